@@ -250,4 +250,435 @@ theorem runs_split_join (d : Byte → Bool) (delim : Byte) (hdel : d delim = tru
         simp [runs, runsGo, hdel]
       rw [this, ih (fun x hx => h x (by simp [hx]))]
 
+
+/-! ## trim -/
+
+theorem trimBack_eq (pre : Str) (x : Byte) (hx : isWsTrim x = false) :
+    trimBack (pre ++ [x]) = (pre ++ [x]).dropWhile isWsTrim := by
+  induction pre with
+  | nil => simp [trimBack, List.dropWhile_cons, hx]
+  | cons p ps ih =>
+    have hne : ps ++ [x] ≠ [] := by simp
+    obtain ⟨q, qs, h⟩ := List.exists_cons_of_ne_nil hne
+    rw [List.cons_append, h, trimBack, List.dropWhile_cons, ← h, ih]
+    intro e; cases e
+
+theorem trim_eq_strip' (view : Str) : trim view = strip isWsTrim view := by
+  unfold trim strip
+  split
+  · rename_i h
+    have : view = [] := List.eq_nil_of_length_eq_zero h
+    subst this; rfl
+  · cases hl : view.dropWhile isWsTrim with
+    | nil => rfl
+    | cons c cs =>
+      have hc := dropWhile_cons_head _ view c cs hl
+      simp only [List.isEmpty_cons, Bool.false_eq_true, ↓reduceIte, List.reverse_cons]
+      rw [trimBack_eq _ _ hc]
+
+/-! ## memmem -/
+
+theorem isPrefixOf_eq_take (s l : Str) : s.isPrefixOf l = (l.take s.length == s) := by
+  rw [Bool.eq_iff_iff]
+  simp only [List.isPrefixOf_iff_prefix, beq_iff_eq]
+  rw [List.prefix_iff_eq_take]
+  exact eq_comm
+
+theorem isPrefixOf_short (s l : Str) (h : l.length < s.length) : s.isPrefixOf l = false := by
+  rw [Bool.eq_false_iff]
+  intro hp
+  have := (List.isPrefixOf_iff_prefix.mp hp).length_le
+  omega
+
+theorem firstOcc_short (s l : Str) (h : l.length < s.length) : firstOcc s l = none := by
+  induction l with
+  | nil =>
+    cases s with
+    | nil => simp at h
+    | cons a as => simp [firstOcc]
+  | cons c cs ih =>
+    simp only [firstOcc, isPrefixOf_short s (c :: cs) h, Bool.false_eq_true, ↓reduceIte]
+    rw [ih (by simp only [List.length_cons] at h; omega)]; rfl
+
+theorem memchr_eq (x : Byte) (l : Str) (off : Nat) :
+    memchr x l off = (firstOcc [x] l).map (· + off) := by
+  induction l generalizing off with
+  | nil => simp [memchr, firstOcc]
+  | cons c cs ih =>
+    by_cases h : c = x
+    · subst h; simp [memchr, firstOcc, List.isPrefixOf]
+    · have h' : ¬ x = c := fun e => h e.symm
+      have hb : (x == c) = false := by simpa using h'
+      have hb' : (c == x) = false := by simpa using h
+      simp only [memchr, firstOcc, List.isPrefixOf, hb, hb', ↓reduceIte, Bool.false_and,
+        Bool.false_eq_true, ih, Option.map_map]
+      congr 1; funext n; show n + (off + 1) = n + 1 + off; omega
+
+theorem memmemLoop_eq (s l : Str) (off : Nat) (hs : s ≠ []) :
+    memmemLoop s l off = (firstOcc s l).map (· + off) := by
+  induction l generalizing off with
+  | nil =>
+    cases s with
+    | nil => exact absurd rfl hs
+    | cons a as => simp [memmemLoop, firstOcc]
+  | cons c cs ih =>
+    unfold memmemLoop
+    split
+    · rename_i hlt; rw [firstOcc_short s _ hlt]; rfl
+    · have hp : (s.head? == some c && (c :: cs).take s.length == s) = s.isPrefixOf (c :: cs) := by
+        rw [isPrefixOf_eq_take]
+        cases s with
+        | nil => exact absurd rfl hs
+        | cons a as =>
+          by_cases hac : a = c
+          · subst hac; simp
+          · simp [hac]
+            intro h1 h2; exact absurd h1.symm hac
+      rw [hp]
+      simp only [firstOcc]
+      split
+      · simp
+      · rw [ih, Option.map_map]
+        congr 1; funext n; show n + (off + 1) = n + 1 + off; omega
+
+theorem memmem_eq_firstOcc' (l s : Str) (hs : s ≠ []) : memmem l s = firstOcc s l := by
+  unfold memmem
+  have hs' : s.length ≠ 0 := fun h => hs (List.eq_nil_of_length_eq_zero h)
+  split
+  · rename_i h
+    rcases h with h | h
+    · have : l = [] := List.eq_nil_of_length_eq_zero h
+      subst this
+      rw [firstOcc_short]; simp; omega
+    · exact absurd h hs'
+  · split
+    · rename_i h; rw [firstOcc_short _ _ h]
+    · split
+      · rename_i h1
+        match s, h1 with
+        | [x], _ => rw [memchr_eq]; simp
+      · rw [memmemLoop_eq _ _ _ hs]; simp
+
+
+/-! ## first occurrence, declaratively -/
+
+theorem firstOcc_some_spec (s l : Str) (i : Nat) (h : firstOcc s l = some i) :
+    s <+: l.drop i ∧ ∀ j, j < i → ¬ s <+: l.drop j := by
+  induction l generalizing i with
+  | nil =>
+    simp only [firstOcc] at h
+    split at h
+    · cases h
+      rename_i he
+      have : s = [] := by simpa using he
+      subst this; simp
+    · cases h
+  | cons c cs ih =>
+    simp only [firstOcc] at h
+    split at h
+    · cases h
+      rename_i hp
+      exact ⟨by simpa using List.isPrefixOf_iff_prefix.mp hp, fun j hj => by omega⟩
+    · rename_i hp
+      cases ho : firstOcc s cs with
+      | none => rw [ho] at h; cases h
+      | some i' =>
+        rw [ho] at h; cases h
+        have ⟨h1, h2⟩ := ih i' ho
+        refine ⟨by simpa using h1, fun j hj => ?_⟩
+        have hj : j < i' + 1 := hj
+        cases j with
+        | zero => simpa [List.isPrefixOf_iff_prefix] using hp
+        | succ j => simpa using h2 j (by omega)
+
+theorem firstOcc_none_spec (s l : Str) (hs : s ≠ []) (h : firstOcc s l = none) :
+    ∀ j, ¬ s <+: l.drop j := by
+  induction l with
+  | nil =>
+    intro j hp
+    simp only [List.drop_nil, List.prefix_nil] at hp
+    exact hs hp
+  | cons c cs ih =>
+    simp only [firstOcc] at h
+    split at h
+    · cases h
+    · rename_i hp
+      cases ho : firstOcc s cs with
+      | some i' => rw [ho] at h; cases h
+      | none =>
+        intro j
+        cases j with
+        | zero => simpa [List.isPrefixOf_iff_prefix] using hp
+        | succ j => simpa using ih ho j
+
+/-! ## substitution -/
+
+theorem substGo_skip (sub rep : Str) (k : Nat) (s : Str) :
+    substGo sub rep k s = substGo sub rep 0 (s.drop k) := by
+  induction k generalizing s with
+  | zero => simp
+  | succ k ih =>
+    cases s with
+    | nil => simp [substGo]
+    | cons c cs => simp [substGo, ih]
+
+theorem substGo_none (sub rep s : Str) (h : firstOcc sub s = none) : substGo sub rep 0 s = s := by
+  induction s with
+  | nil => rfl
+  | cons c cs ih =>
+    simp only [firstOcc] at h
+    split at h
+    · cases h
+    · rename_i hp
+      cases ho : firstOcc sub cs with
+      | some i' => rw [ho] at h; cases h
+      | none => simp only [substGo, hp, Bool.false_eq_true, ↓reduceIte, ih ho]
+
+theorem substGo_some (sub rep s : Str) (i : Nat) (hs : sub ≠ []) (h : firstOcc sub s = some i) :
+    substGo sub rep 0 s = s.take i ++ rep ++ substGo sub rep 0 (s.drop (i + sub.length)) := by
+  induction s generalizing i with
+  | nil =>
+    simp only [firstOcc] at h
+    split at h
+    · rename_i he; exact absurd (by simpa using he) hs
+    · cases h
+  | cons c cs ih =>
+    simp only [firstOcc] at h
+    split at h
+    · cases h
+      rename_i hp
+      have hl : sub.length - 1 + 1 = sub.length := by
+        cases sub with
+        | nil => exact absurd rfl hs
+        | cons a as => simp
+      simp only [substGo, hp, ↓reduceIte, List.take_zero, List.nil_append, Nat.zero_add]
+      rw [substGo_skip]
+      congr 2
+      conv => rhs; rw [← hl, List.drop_succ_cons]
+    · rename_i hp
+      cases ho : firstOcc sub cs with
+      | none => rw [ho] at h; cases h
+      | some i' =>
+        rw [ho] at h; cases h
+        simp only [substGo, hp, Bool.false_eq_true, ↓reduceIte, ih i' ho]
+        have : i' + 1 + sub.length = (i' + sub.length) + 1 := by omega
+        simp [this]
+
+theorem memmem_bound (l s : Str) (i : Nat) (hs : s ≠ []) (h : memmem l s = some i) :
+    i + s.length ≤ l.length := by
+  rw [memmem_eq_firstOcc' l s hs] at h
+  have hp := (firstOcc_some_spec s l i h).1
+  have := hp.length_le
+  simp only [List.length_drop] at this
+  have hpos : 0 < s.length := by cases s with | nil => exact absurd rfl hs | cons a as => simp
+  omega
+
+theorem replaceLoop_eq (sub rep : Str) (hs : sub ≠ []) (f : Nat) (strit out : Str) (h : strit.length < f) :
+    replaceLoop sub rep f strit out = some (out ++ substGo sub rep 0 strit) := by
+  induction f generalizing strit out with
+  | zero => omega
+  | succ f ih =>
+    unfold replaceLoop
+    rw [memmem_eq_firstOcc' strit sub hs]
+    cases ho : firstOcc sub strit with
+    | none => simp [substGo_none sub rep strit ho]
+    | some step =>
+      simp only
+      have hb := memmem_bound strit sub step hs (by rw [memmem_eq_firstOcc' strit sub hs]; exact ho)
+      have hpos : 0 < sub.length := by cases sub with | nil => exact absurd rfl hs | cons a as => simp
+      rw [ih _ _ (by simp only [List.length_drop]; omega), substGo_some sub rep strit step hs ho]
+      simp [List.append_assoc]
+
+/-! ## replace_substrings: the bounded writer -/
+
+/-- `(w, room)` stands for "the unbounded output so far is `F`, the buffer holds `R` characters" -/
+def RsRep (F : Str) (R : Nat) : Str × Nat := (F.take R, R - F.length)
+
+theorem rsPut_rep (F : Str) (R : Nat) (src : Str) (len : Nat) (hl : len ≤ src.length) :
+    rsPut (RsRep F R) src len = RsRep (F ++ src.take len) R := by
+  unfold rsPut RsRep
+  simp only [List.take_append, List.length_append, List.length_take, List.take_take]
+  have h1 : min len src.length = len := Nat.min_eq_left hl
+  refine Prod.ext ?_ ?_
+  · simp only
+    congr 2
+    omega
+  · simp only [h1]; omega
+
+theorem rsLoop_eq (sub rep : Str) (hs : sub ≠ []) (R : Nat) (f : Nat) (strit F : Str) (h : strit.length < f) :
+    rsLoop sub rep f strit (RsRep F R) = some (RsRep (F ++ substGo sub rep 0 strit) R) := by
+  induction f generalizing strit F with
+  | zero => omega
+  | succ f ih =>
+    unfold rsLoop
+    rw [memmem_eq_firstOcc' strit sub hs]
+    cases ho : firstOcc sub strit with
+    | none =>
+      simp only
+      rw [rsPut_rep F R strit strit.length (Nat.le_refl _), substGo_none sub rep strit ho]
+      simp
+    | some step =>
+      simp only
+      have hb := memmem_bound strit sub step hs (by rw [memmem_eq_firstOcc' strit sub hs]; exact ho)
+      have hpos : 0 < sub.length := by cases sub with | nil => exact absurd rfl hs | cons a as => simp
+      rw [rsPut_rep F R strit step (by omega), rsPut_rep _ R rep rep.length (Nat.le_refl _),
+        ih _ _ (by simp only [List.length_drop]; omega), substGo_some sub rep strit step hs ho]
+      simp [List.append_assoc]
+
+
+/-! ## split_cmdargs -/
+
+theorem cmdGo_gap_skip (s : Str) : cmdGo .gap s = cmdGo .gap (s.dropWhile (· == SP)) := by
+  induction s with
+  | nil => rfl
+  | cons c cs ih =>
+    by_cases h : (c == SP) = true
+    · simp only [List.dropWhile_cons, h, ↓reduceIte]
+      rw [← ih]; simp [cmdGo, h]
+    · simp [List.dropWhile_cons, h]
+
+theorem cmdGo_word (s acc : Str) :
+    cmdGo (.word acc) s = (acc ++ s.takeWhile (· != SP)) :: cmdGo .gap (s.dropWhile (· != SP)) := by
+  induction s generalizing acc with
+  | nil => simp [cmdGo]
+  | cons c cs ih =>
+    by_cases h : c = SP
+    · subst h; simp [cmdGo, List.takeWhile_cons, List.dropWhile_cons]
+    · simp [cmdGo, h, List.takeWhile_cons, List.dropWhile_cons, ih]
+
+theorem cmdGo_quote (q : Byte) (s acc : Str) :
+    cmdGo (.quote q acc) s =
+      (acc ++ s.takeWhile (· != q)) ::
+        (match s.dropWhile (· != q) with
+         | [] => []
+         | _ :: r => cmdGo .gap r) := by
+  induction s generalizing acc with
+  | nil => simp [cmdGo]
+  | cons c cs ih =>
+    by_cases h : c = q
+    · subst h; simp [cmdGo, List.takeWhile_cons, List.dropWhile_cons]
+    · simp [cmdGo, h, List.takeWhile_cons, List.dropWhile_cons, ih]
+
+theorem cmdargsLoop_eq (f : Nat) (ptr : Cur) (out : List Str) (h : ptr.length < f) :
+    cmdargsLoop f ptr out = some (out ++ cmdGo .gap ptr) := by
+  induction f generalizing ptr out with
+  | zero => omega
+  | succ f ih =>
+    unfold cmdargsLoop
+    rw [cmdGo_gap_skip ptr]
+    have hl := length_dropWhile_le (· == SP) ptr
+    cases hp : ptr.dropWhile (· == SP) with
+    | nil => simp [cmdGo]
+    | cons c rest =>
+      have hc := dropWhile_cons_head _ ptr c rest hp
+      rw [hp] at hl
+      simp only [List.length_cons] at hl
+      simp only
+      split
+      · rename_i hq
+        have hl2 := length_dropWhile_le (· != c) rest
+        have hgo : cmdGo .gap (c :: rest) = cmdGo (.quote c []) rest := by
+          simp only [cmdGo, hc, Bool.false_eq_true, ↓reduceIte, hq]
+        rw [hgo, cmdGo_quote, between_dropWhile]
+        cases hp2 : rest.dropWhile (· != c) with
+        | nil => simp
+        | cons x p' =>
+          rw [hp2] at hl2
+          simp only [List.length_cons] at hl2
+          simp only
+          rw [ih _ _ (by omega)]
+          simp [List.append_assoc]
+      · rename_i hq
+        have hq' : (c == DQ || c == SQ) = false := by simpa using hq
+        have hgo : cmdGo .gap (c :: rest) = cmdGo (.word [c]) rest := by
+          simp only [cmdGo, hc, Bool.false_eq_true, ↓reduceIte, hq']
+        have hne : (c != SP) = true := by simp [bne, hc]
+        have hl2 := length_dropWhile_le (· != SP) rest
+        rw [hgo, cmdGo_word, between_dropWhile]
+        simp only [List.dropWhile_cons, List.takeWhile_cons, hne, ↓reduceIte]
+        rw [ih _ _ (by omega)]
+        simp [List.append_assoc]
+
+
+theorem cmdGo_no_quotes_aux (s : Str) (h : DQ ∉ s ∧ SQ ∉ s) :
+    (∀ acc, acc ≠ [] → cmdGo (.word acc) s = runsGo (· == SP) acc s)
+      ∧ cmdGo .gap s = runsGo (· == SP) [] s := by
+  induction s with
+  | nil =>
+    refine ⟨fun acc ha => ?_, rfl⟩
+    cases acc with
+    | nil => exact absurd rfl ha
+    | cons a as => simp [cmdGo, runsGo]
+  | cons c cs ih =>
+    have hcs : DQ ∉ cs ∧ SQ ∉ cs := ⟨fun m => h.1 (by simp [m]), fun m => h.2 (by simp [m])⟩
+    have hdq : c ≠ DQ := fun e => h.1 (by simp [e])
+    have hsq : c ≠ SQ := fun e => h.2 (by simp [e])
+    have ⟨ih1, ih2⟩ := ih hcs
+    refine ⟨fun acc ha => ?_, ?_⟩
+    · by_cases hc : c = SP
+      · subst hc
+        cases acc with
+        | nil => exact absurd rfl ha
+        | cons a as => simp [cmdGo, runsGo, ih2]
+      · simp [cmdGo, runsGo, hc, ih1]
+    · by_cases hc : c = SP
+      · subst hc; simp [cmdGo, runsGo, ih2]
+      · simp [cmdGo, runsGo, hc, hdq, hsq, ih1]
+
+theorem cmdGo_no_quotes (s : Str) (h : DQ ∉ s ∧ SQ ∉ s) : cmdargsSpec s = runs (· == SP) s :=
+  (cmdGo_no_quotes_aux s h).2
+
+/-! ## strip, declaratively -/
+
+theorem mem_takeWhile_sat (p : Byte → Bool) (l : Str) : ∀ c ∈ l.takeWhile p, p c = true := by
+  induction l with
+  | nil => simp
+  | cons a as ih =>
+    intro c hc
+    simp only [List.takeWhile_cons] at hc
+    split at hc
+    · rename_i ha
+      simp only [List.mem_cons] at hc
+      rcases hc with hc | hc
+      · subst hc; exact ha
+      · exact ih c hc
+    · simp at hc
+
+theorem head?_dropWhile_not (p : Byte → Bool) (l : Str) (c : Byte)
+    (h : (l.dropWhile p).head? = some c) : p c = false := by
+  cases hd : l.dropWhile p with
+  | nil => rw [hd] at h; simp at h
+  | cons x xs =>
+    rw [hd] at h; simp at h; subst h
+    exact dropWhile_cons_head p l x xs hd
+
+theorem getLast?_dropWhile (p : Byte → Bool) (l : Str) (c : Byte)
+    (h : (l.dropWhile p).getLast? = some c) : l.getLast? = some c := by
+  have := @List.takeWhile_append_dropWhile _ p l
+  rw [← this, List.getLast?_append, h]
+  rfl
+
+theorem strip_exact (w : Byte → Bool) (s : Str) :
+    ∃ pre post, s = pre ++ strip w s ++ post
+      ∧ (∀ c ∈ pre, w c = true) ∧ (∀ c ∈ post, w c = true)
+      ∧ (∀ c, (strip w s).head? = some c → w c = false)
+      ∧ (∀ c, (strip w s).getLast? = some c → w c = false) := by
+  refine ⟨s.takeWhile w, (((s.dropWhile w).reverse).takeWhile w).reverse, ?_, ?_, ?_, ?_, ?_⟩
+  · unfold strip
+    rw [List.append_assoc, ← List.reverse_append, List.takeWhile_append_dropWhile,
+      List.reverse_reverse, List.takeWhile_append_dropWhile]
+  · exact mem_takeWhile_sat w s
+  · intro c hc
+    exact mem_takeWhile_sat w _ c (by simpa using hc)
+  · intro c hc
+    unfold strip at hc
+    rw [List.head?_reverse] at hc
+    have := getLast?_dropWhile w _ c hc
+    rw [List.getLast?_reverse] at this
+    exact head?_dropWhile_not w s c this
+  · intro c hc
+    unfold strip at hc
+    rw [List.getLast?_reverse] at hc
+    exact head?_dropWhile_not w _ c hc
+
 end Igris.C19
